@@ -1,5 +1,5 @@
 (* GENERATED on every check run by `verifh facts` from the current /repo sources - do not edit. *)
-From Coq Require Import List String ZArith.
+From Coq Require Import List String Ascii ZArith.
 Import ListNotations.
 Open Scope string_scope.
 Definition open_flags : list string := ["O_RDWR"; "O_TRUNC"].
